@@ -475,6 +475,10 @@ def integrate(b, case, q, p, eps=None, L=None):
         integ.step_size, integ.steps = eps, L
     try:
         p1 = integ(b.op._hamiltonian.joint, b.op.parameters, torch.tensor(p), b.op.inverse_mass_matrix)
+    except ValueError:      # documented numerical failure (NaN potential / gradient): no value
+        for x in b.params:
+            x.requires_grad = False
+        return [math.nan] * len(q), [math.nan] * len(p)
     finally:
         integ.step_size, integ.steps = old
     return flat([x.tensor for x in b.params]), [float(v) for v in p1]
@@ -501,6 +505,8 @@ def check_reversible(b, case, q0, p0, rng):
     if not all(math.isfinite(v) for v in q1 + p1):
         return "undefined", None
     q2, p2 = integrate(b, case, q1, [-v for v in p1])
+    if not all(math.isfinite(v) for v in q2 + p2):
+        return "undefined", None
     err = max(maxabs([a - c for a, c in zip(q2, q0)]), maxabs([a + c for a, c in zip(p2, p0)]))
     d = 1e-7
     s1 = max(1.0, maxabs(q1), maxabs(p1))
@@ -599,6 +605,8 @@ def check_energy_order(b, case, q0, rng):
     else:
         return "undefined", None
     e2, e3 = E(h / 2, 2 * L0), E(h / 4, 4 * L0)
+    if not (math.isfinite(e2) and math.isfinite(e3)):
+        return "undefined", None
     floor = 1e-11 * scale * (4 * L0)
     if e1 < 100 * floor:
         return "undefined", None          # already at round-off level
